@@ -3,6 +3,7 @@ CONSTANTS
   Digests = {"d1","d2","d3"}
   Kinds = {"exact","flipped","trunc","ext","abort"}
   VerifyMem = TRUE
+  FenceWriters = TRUE
   MaxRetries = 2
 INVARIANT Inv
 CONSTRAINT HW
